@@ -128,7 +128,7 @@ def explore(tier="quick", prop="C10"):
     rng = random.Random(common.seed() * 59 + 4)
     stats = {"evaluations": 0, "distinct_nontrivial": 0, "samples": [], "findings": []}
     failure = None
-    for _ in range(60 if tier == "quick" else 1500):
+    for _ in range(150 if tier == "quick" else 1500):
         case = gen(rng)
         try:
             res = run_case(case, semi_layout="contiguous")
